@@ -112,7 +112,7 @@ class SeqLenCase(base.CaseBase):
                 if self.native:
                     text = pfbase.native_pformat(self.value, w, rw, max_seq_len=n)
                 else:
-                    text = pfbase.stream_text(pfbase.sdocs(self.value, w, rw, False, max_seq_len=n))
+                    text = pfbase.ptext(self.value, w, rw, max_seq_len=n)
             except Exception as e:
                 exc = type(e).__name__
                 return self.fail('C10:pformat-raises-' + exc, lambda: '%s: %s' % (exc, e))
@@ -190,9 +190,20 @@ class NoneEqualsHugeCase(pfbase.CfgCase):
     def __init__(self, params):
         super().__init__(params)
         self.spec = params['spec']
-        self.value = trees.build(self.spec)
+        self.value = trees.build(self.spec) if self.spec[0] != 'range' else list(range(self.spec[1]))
+        self.lowered = params.get('lowered_default')
 
     def run(self, w, rw):
+        import prettyprinter as PKG
+        saved = dict(PKG._default_config)
+        try:
+            if self.lowered is not None:
+                PKG.set_default_config(max_seq_len=self.lowered)
+            return self.run_inner(w, rw)
+        finally:
+            PKG._default_config = saved
+
+    def run_inner(self, w, rw):
         with warnings.catch_warnings(record=True) as wlist:
             warnings.simplefilter('always')
             try:
@@ -200,18 +211,20 @@ class NoneEqualsHugeCase(pfbase.CfgCase):
                     a = pfbase.native_pformat(self.value, w, rw, max_seq_len=None)
                     b = pfbase.native_pformat(self.value, w, rw, max_seq_len=10 ** 6)
                 else:
-                    a = pfbase.stream_text(pfbase.sdocs(self.value, w, rw, False, max_seq_len=None))
-                    b = pfbase.stream_text(pfbase.sdocs(self.value, w, rw, False, max_seq_len=10 ** 6))
+                    a = pfbase.ptext(self.value, w, rw, max_seq_len=None)
+                    b = pfbase.ptext(self.value, w, rw, max_seq_len=10 ** 6)
             except Exception as e:
                 exc = type(e).__name__
                 return self.fail('C10:pformat-raises-' + exc, lambda: '%s: %s' % (exc, e))
         with NoTracing():
+            label = trees.show(self.spec) if self.spec[0] != 'range' else 'list(range(%d))' % self.spec[1]
             if any(issubclass(x.category, UserWarning) for x in wlist):
                 return self.fail('C10:max_seq_len-None-degrades-to-repr',
-                                 lambda: 'value=%s\nNone:\n%s\n10**6:\n%s' % (trees.show(self.spec), a, b))
+                                 lambda: 'value=%s\nNone:\n%s\n10**6:\n%s' % (label, a[:2000], b[:2000]))
             if a != b:
                 return self.fail('C10:None-differs-from-huge-limit',
-                                 lambda: 'value=%s\nNone:\n%s\n10**6:\n%s' % (trees.show(self.spec), a, b))
+                                 lambda: 'value=%s default max_seq_len=%r\nNone:\n...%s\n10**6:\n...%s' % (
+                                     label, self.lowered, a[-300:], b[-300:]))
             return True
 
 
@@ -242,11 +255,18 @@ def cases(tier, seed):
                     'params': {'spec': spec, 'n': 10 ** 6, 'slice': 'page'}, 'budget': 60.0})
         out.append({'name': 'None==huge:%s' % name, 'family': 'none',
                     'params': {'spec': spec, 'slice': 'page'}, 'budget': 60.0})
+        if i % 2 == 0 or tier == 'thorough':
+            out.append({'name': 'None==huge:%s:default-lowered-to-%d' % (name, 1 + i % 3), 'family': 'none',
+                        'params': {'spec': spec, 'slice': 'page', 'lowered_default': 1 + i % 3}, 'budget': 60.0})
         if tier == 'thorough':
             out.append({'name': 'N-symbolic:%s|ribbon' % name, 'family': 'seqlen',
                         'params': {'spec': spec, 'n': 'sym', 'slice': 'ribbon'}, 'budget': 400.0})
             out.append({'name': 'N-symbolic:%s|narrow' % name, 'family': 'seqlen',
                         'params': {'spec': spec, 'n': 'sym', 'slice': 'narrow'}, 'budget': 400.0})
+    # containers longer than the stock default of 1000 (default configuration, concrete)
+    for n in ([1001] if tier == 'quick' else [1000, 1001, 1500]):
+        out.append({'name': 'None==huge:list(range(%d))' % n, 'family': 'none',
+                    'params': {'spec': ['range', n], 'slice': 'default'}, 'budget': 200.0, 'path_timeout': 120.0})
     return out
 
 
@@ -254,7 +274,7 @@ def evidence(tier, seed, tasks, results):
     return {
         'coverage': {
             'bounds': {
-                'max_seq_len': 'symbolic 1..(longest container + 2) per tree; None and 10**6 as concrete cases',
+                'max_seq_len': 'symbolic 1..(longest container + 2) per tree; None and 10**6 as concrete cases; None also after set_default_config(max_seq_len=1..3) and on lists of 1001 elements',
                 'width': '1..200 symbolic (page slice)' + ('; ribbon and narrow slices' if tier == 'thorough' else ''),
                 'trees': [n for n, _ in TREES],
             },
